@@ -108,7 +108,7 @@ def judge_once(traces, rep):
     return {t['id']: got[i] for i, t in enumerate(traces, start=1)}
 
 PROFILES = "progress,errors".split(',')
-CFGS = "nodoors,lim,sub".split(',')
+CFGS = "nodoors,lim,sub,res".split(',')
 NEGATIVES = dict(x.split(':') for x in "neg_doors:AtMostOnce".split(',') if ':' in x)
 FEATURES = set("retry,failure,kill,stop,restart-or-relist".split(','))
 
